@@ -3,7 +3,8 @@
    real importer and HAMT code), logged block by block, must be behaviours of GatewayCar in
    which every invariant of the property holds:
      Dag   the projected DAG (node id = CID) and the id of the root the content paths start at
-     Req   one CAR request: node the content path starts at, path, dag-scope, entity-bytes, dups
+     Req   one CAR request: node the content path starts at, path, dag-scope, entity-bytes, duplicates
+           policy ("y" | "n" | "unspec"), via ("http" handler | "api" = direct BlocksBackend.GetCAR call)
      Block one block of the CAR body, in stream order: node id (0 = not a block of the DAG),
            hashOK = the bytes hash to the CID
      End   CAR header root, HTTP status, result of the independent offline re-read
@@ -31,7 +32,7 @@ TDag == /\ IsEvent("Dag") /\ phase \in {"idle", "done"}
 TReq == /\ IsEvent("Req")
         /\ Ev.at \in DOMAIN dag
         /\ RequestWith(dag, Ev.at,
-                       [path |-> Ev.path, scope |-> Ev.scope, dups |-> Ev.dups,
+                       [path |-> Ev.path, scope |-> Ev.scope, dups |-> Ev.dups, via |-> Ev.via,
                         rng |-> [has |-> Ev.has, from |-> Ev.from, star |-> Ev.star, to |-> Ev.to]],
                        <<>>)
 TBlock == IsEvent("Block") /\ ObservedBlock(Ev.n, Ev.hashOK)
